@@ -494,6 +494,8 @@ fn write_replay(prop: &dyn Property, tier: Tier, v: &Violation) -> PathBuf {
         "tape_hex": v.tape.as_ref().map(|t| tape::to_hex(t)),
         "sweep_index": v.sweep_index,
         "case": case,
+        // the process environment is part of the case for properties that set it (C20: local time zone)
+        "env_tz": std::env::var("TZ").ok(),
     });
     std::fs::write(&path, serde_json::to_string_pretty(&doc).unwrap()).unwrap_or_else(|e| inconclusive(&format!("cannot write replay: {e}")));
     path
@@ -770,6 +772,10 @@ pub fn replay(props: &[Box<dyn Property>], path: &str) -> i32 {
     } else {
         Tier::Quick
     };
+    if let Some(tz) = v["env_tz"].as_str() {
+        // single-threaded at this point
+        std::env::set_var("TZ", tz);
+    }
     let mut ctx = Ctx::new(tier, true);
     let r = if let Some(h) = v["tape_hex"].as_str() {
         let t = tape::from_hex(h).unwrap_or_else(|| inconclusive("bad tape hex"));
